@@ -155,4 +155,16 @@ CLAIMS = {
     note="Trusted: TLC, encoding/xml's tokeniser (shared with the library under test). After the first error the rest of a stream is unconstrained; "
          "for corrupted inputs only the prefix before the damage, no panic and bounded time (4 s watchdog) are asserted.",
     technique=TECH),
+ "C01": dict(
+    text="Codec.tla gives, for every abstract stanza value (kind, subset of the five addressing attributes, standard children, error shape, "
+         "registered extensions / payload and their order, text class), the element shape the serialiser must produce (Enc) and what the parser "
+         "reads back (Dec); TLC checks Dec(Enc(v)) = v and shape-independent-of-text for all values and emits them. Each is built with the "
+         "library's own types (payload internals populated by reflection over the struct tags with strings of the class: < > & quotes ]]> "
+         "leading/trailing/only whitespace, non-ASCII), marshalled, re-tokenised, parsed back inside a stream, marshalled again; TLC compares the "
+         "observed root attributes and child order with Enc, and judges well-formedness, structure-independence of text, parse-back kind, "
+         "equality of the parsed value (multiset of field-path/leaf pairs), byte-identical second serialisation.",
+    note="Trusted: TLC, encoding/xml (escaping, tokeniser), the reflection walk of the harness. This is the property where the TLA+ "
+         "specification adds least over the enumeration it drives (DESIGN.md section 9): the byte level is judged through observations computed "
+         "in Go. Not populated: PubSubEvent, PubSubGeneric, PubSubOwner, Command, ControlSet, HTML, Delegation.",
+    technique=TECH),
 }
